@@ -87,6 +87,8 @@ def generate(seed, tier):
             ops.append({'op': 'forge', 'kind': kind, 'tip': -1 if rng.random() < 0.6 else rng.randrange(1000),
                         'a': rng.randrange(1000), 'b': rng.randrange(1000), 'dt': rng.choice([1, 60, 600]),
                         'clock': 0, 'peer': peer, 'overlap': rng.random() < 0.15})
+            if rng.random() < 0.12:
+                ops[-1].update({'flush_during_validation': True, 'overlap': False})
         elif x < 0.91:
             m = LC.gen_mine(rng, latest_bias=0.7, max_txs=2)
             m.update({'op': 'corrupt_then_valid', 'peer': peer, 'peer2': rng.randrange(4), 'clock': 0, 'a': rng.randrange(100000)})
@@ -131,6 +133,7 @@ def execute(script):
         unflushed = set()                    # installed unvalidated (bulk route) since the last validated install: only buffered
         dropped = []                         # blocks the node dropped again by rolling back (may be delivered again)
         cs_valid = {'cs': sim.cs}            # the shadow state as of the last moment nothing was unflushed
+        race_flushed = set()                 # unvalidated blocks that the node's other thread flushed while they were only buffered
 
         def hook_installs():
             cm = w.cm
@@ -316,7 +319,7 @@ def execute(script):
             if rows & rejected:
                 res.violate(PROP, 'C09/rejected-block-in-store', 'a rejected block was written to the block store')
                 return False
-            if not (accepted - unflushed <= rows <= accepted):
+            if not (accepted - unflushed <= rows <= accepted | race_flushed):
                 res.violate(PROP, 'C09/store-differs-from-accepted',
                             'store has %d rows, %d blocks accepted so far (missing %d, extra %d)' % (
                                 len(rows), len(accepted), len(accepted - rows), len(rows - accepted)))
@@ -593,6 +596,29 @@ def execute(script):
                     continue
                 res.bump('forgery:' + op['kind'])
                 res.distinct.add('forge:%s:%s' % (op['kind'], cfg.get('base')))
+                if op.get('flush_during_validation'):
+                    # the node's other thread (the miner, at the end of its found-block handler) flushes the store while the
+                    # networking thread is inside the slow in-chain validation of this block
+                    if not settle_and_check():
+                        break
+                    pool_now = w.pool_ids()
+                    import skepticoin.networking.remote_peer as rp_
+                    orig_v_ = rp_.validate_block_in_coinstate
+
+                    def racing_validate(block_, coinstate_):
+                        race_flushed.update(unflushed)      # blocks that were only buffered are on disk from now on
+                        node.lp.disk_interface.flush_blocks()
+                        res.bump('probe:other_thread_flushed_during_validation')
+                        return orig_v_(block_, coinstate_)
+                    rp_.validate_block_in_coinstate = racing_validate
+                    try:
+                        send_block(blk, op.get('peer', 0), 'forgery:' + op['kind'] + ':flush-during-validation', 'forgery')
+                        batch[-1]['pool_before'] = pool_now
+                        if not settle_and_check():
+                            break
+                    finally:
+                        rp_.validate_block_in_coinstate = orig_v_
+                    continue
                 send_block(blk, op.get('peer', 0), 'forgery:' + op['kind'], 'forgery')
                 batch[-1]['pool_before'] = pool_now
                 if not op.get('overlap'):
@@ -627,6 +653,11 @@ def execute(script):
                         seen_tx.add(tid)
                 if shared:
                     res.bump('restart_skipped_shared_transaction')
+                    continue
+                if race_flushed - accepted:
+                    # blocks the other thread flushed while they were only buffered and that the node dropped afterwards are on
+                    # disk: a restart brings them back (they were never judged); not followed by the reference
+                    res.bump('restart_skipped_race_flushed_blocks')
                     continue
                 if unflushed:
                     model_drop(set(unflushed), 'probe:restart_lost_buffered_bulk_blocks')
